@@ -367,7 +367,12 @@ pub fn history_case(data: &[u8]) -> c14::History {
                     },
                 ))
             }
-            9 => c14::Op::RenderText,
+            9 => match c.u8() % 4 {
+                0 => c14::Op::RenderText,
+                1 => c14::Op::PRenderSvg,
+                2 => c14::Op::PSet(c14::SvgOp::Margin(c.below(9))),
+                _ => c14::Op::PSet(c14::SvgOp::Image("logo.png".to_string())),
+            },
             10 => c14::Op::RenderSvg(svg_ops(&mut c)),
             _ => c14::Op::RenderPng(png_ops(&mut c)),
         });
